@@ -2,6 +2,8 @@ package main
 
 import (
 	"fmt"
+	"io"
+	"net/http"
 	"os"
 	"os/signal"
 	"path/filepath"
@@ -294,7 +296,7 @@ func runGrpcConc(o *Oracle, rep *Report, r *Rng, tier string) {
 	o.Send("idx build fast")
 	var qs []QCase
 	var want []string
-	for k := 0; k < 10; k++ {
+	for k := 0; k < 150; k++ { // many different expressions: cache misses (and insertions) keep happening throughout the run
 		q := QCase{E: genExpr(r, pool, 1+r.Intn(3), false), GB: genGroupBy(r, pool, false)}
 		qs = append(qs, q)
 		want = append(want, "ok id=1 "+o.Ask("idx q "+q.Toks()))
@@ -307,6 +309,29 @@ func runGrpcConc(o *Oracle, rep *Report, r *Rng, tier string) {
 		per = 150
 	}
 	unknown := QCase{E: &Ex{Op: "E", C: hx("nosuchcolumn"), V: hx("1")}}
+	// a monitoring system polls the debug listener all the while (besides the harness's standing 15 ms scraper)
+	stopScrape := make(chan struct{})
+	var swg sync.WaitGroup
+	for k := 0; k < 3; k++ {
+		swg.Add(1)
+		go func() {
+			defer swg.Done()
+			cl := &http.Client{Timeout: 2 * time.Second}
+			for {
+				select {
+				case <-stopScrape:
+					return
+				default:
+				}
+				if resp, err := cl.Get("http://" + s.debug + "/metrics"); err == nil {
+					io.Copy(io.Discard, resp.Body)
+					resp.Body.Close()
+				} else {
+					time.Sleep(5 * time.Millisecond)
+				}
+			}
+		}()
+	}
 	for g := 0; g < 8; g++ {
 		wg.Add(1)
 		go func(g int) {
@@ -330,6 +355,8 @@ func runGrpcConc(o *Oracle, rep *Report, r *Rng, tier string) {
 		}(g)
 	}
 	wg.Wait()
+	close(stopScrape)
+	swg.Wait()
 	alive := s.alive()
 	s.stop()
 	rep.CountN("concurrent-grpc-requests", 8*per)
